@@ -54,6 +54,15 @@ class _MethodScan(ast.NodeVisitor):
         self.calls = set()
         self.jac = jacname
         self.block_ops = []  # (key, op, lineno) in source order; op in '=', 'slice=', 'zero', '+=', '*='
+        self.guarded_writes = set()  # attributes written only inside an if / conditional expression
+        self._cond = 0
+
+    def visit_If(self, node):
+        self.visit(node.test)
+        self._cond += 1
+        for st in node.body + node.orelse:
+            self.visit(st)
+        self._cond -= 1
 
     def visit_Assign(self, node):
         for t in node.targets:
@@ -69,6 +78,8 @@ class _MethodScan(ast.NodeVisitor):
         a = _self_attr(t)
         if a and a != "options":
             self.writes.add(a)
+            if self._cond:
+                self.guarded_writes.add(a)
         # partials[...] targets
         base = t
         depth = 0
@@ -163,6 +174,17 @@ def _scan_class(cls, src_rel):
     refresh = {}
     for a in lu:
         refresh[a] = sorted(m for m in scans if a in scans[m].writes)
+    # a factorization that solve_nonlinear refreshes only CONDITIONALLY: which instance attributes can the condition
+    # depend on, and which other entry points (residual evaluation, linearize) overwrite those attributes?
+    guarded = {}
+    if "solve_nonlinear" in scans:
+        gw = closure(["solve_nonlinear"], "guarded_writes")
+        for a in lu:
+            if a in gw:
+                guard_attrs = {x for x in closure(["solve_nonlinear"], "reads") if x not in lu and x not in methods and x != "options"}
+                guarded[a] = {"guard_attrs": sorted(guard_attrs),
+                              "written_by_apply": sorted(guard_attrs & closure(["apply_nonlinear"], "writes")) if "apply_nonlinear" in scans else [],
+                              "written_by_linearize": sorted(guard_attrs & closure(["linearize"], "writes")) if "linearize" in scans else []}
     return {
         "class": cls.name,
         "file": src_rel,
@@ -170,6 +192,7 @@ def _scan_class(cls, src_rel):
         "caches": caches,
         "lu": lu,
         "lu_refresh": refresh,
+        "lu_guarded": guarded,
         "blocks": blocks,
         "shared": shared,
         "setup_attrs": sorted(setup_w),
@@ -224,6 +247,9 @@ def to_tla(tab):
     implicit = []
     refac = []
     shared = []
+    guarded = []
+    g_apply = []
+    g_lin = []
     for c in tab["components"]:
         name = c["class"]
         has_p = any(m in c["methods"] for m in PARTIALS)
@@ -247,6 +273,12 @@ def to_tla(tab):
             implicit.append(name)
             if any("linearize" in r for r in c["lu_refresh"].values()):
                 refac.append(name)
+            if c.get("lu_guarded"):
+                guarded.append(name)
+                if any(g["written_by_apply"] for g in c["lu_guarded"].values()):
+                    g_apply.append(name)
+                if any(g["written_by_linearize"] for g in c["lu_guarded"].values()):
+                    g_lin.append(name)
     # one generic, well-behaved component stands for all the rest
     comps.append("generic")
     blocks.append(("generic", "assign"))
@@ -274,5 +306,8 @@ def to_tla(tab):
     lines.append("Implicit == " + sset(implicit))
     lines.append("RefactorsOnLinearize == " + sset(refac))
     lines.append("SharedAttrs == " + sset(shared))
+    lines.append("GuardedRefactor == " + sset(guarded) + "      \\* solve_nonlinear refreshes the factorization only if a guard on instance attributes fires")
+    lines.append("GuardSeesApply == " + sset(g_apply) + "       \\* ... and residual evaluation (apply_nonlinear) overwrites an attribute the guard reads")
+    lines.append("GuardSeesLinearize == " + sset(g_lin) + "   \\* ... and linearize overwrites an attribute the guard reads")
     lines.append("=============================================================================")
     return "\n".join(lines) + "\n"
